@@ -4,7 +4,7 @@ import OpcuaModel.Model.SrvHandlersLemmas
   Helper lemmas for Props/C29 (not property statements).
 -/
 namespace Opcua.Srv
-open Opcua.Gen.SrvRobust
+open Opcua.Gen.SrvRobust Opcua.Gen.SrvSession
 
 def isErr {ε α} : Except ε α → Bool
   | .error _ => true
@@ -102,5 +102,102 @@ theorem dispatch_fill (cap used k : Nat) (rest : List Job) (h : used + k ≤ cap
     simp only [if_true, h1, List.replicate_succ, List.cons_append]
     rw [ih (used + 1) (by omega), show used + 1 + k = used + (k + 1) by omega]
 
+
+theorem putSub_owners (subs : List Sub) (id : Nat) (o : Tok) (h : (subs.all fun s => s.owner.isSome) = true) :
+    ((putSub subs ⟨id, some o⟩).all fun s => s.owner.isSome) = true := by
+  unfold putSub
+  rw [List.all_append]
+  simp only [List.all_cons, List.all_nil, Option.isSome_some, Bool.and_true]
+  exact List.all_eq_true.mpr fun s hs => List.all_eq_true.mp h s (List.mem_filter.mp hs).1
+
+/-! ### dispatcher level: pre-empted requests never reach a handler body -/
+
+theorem step_preempted (st : St) (t : Tok) (r : Req) (h : preempted st t r = true) :
+    (step st t r).2.isCrash = false := by
+  unfold preempted at h
+  unfold step
+  cases hh : handlerOf r.name with
+  | none => rfl
+  | some x =>
+    simp only [hh] at h
+    by_cases hu : x.unsupported = true
+    · simp [hu, unsupportedFault, Out.isCrash]
+    · simp only [hu, Bool.false_or, Bool.false_eq_true, if_false] at h ⊢
+      simp [h, Out.isCrash]
+
+theorem step_not_preempted (st : St) (t : Tok) (r : Req) (h : preempted st t r = false) :
+    step st t r = body st t r := by
+  unfold preempted at h
+  unfold step
+  cases hh : handlerOf r.name with
+  | none => simp [hh] at h
+  | some x =>
+    simp only [hh, Bool.or_eq_false_iff] at h
+    simp [h.1, h.2]
+
+/-- inside the handler bodies: a panic iff the shape is not `safeBody` -/
+theorem body_crash_iff (st : St) (t : Tok) (r : Req) : (body st t r).2.isCrash = !safeBody st t r := by
+  cases r with
+  | findServers =>
+    cases h1 : st.endpointsEmpty <;> cases h2 : findServersChecksEndpoints <;> simp [body, safeBody, h1, h2, Out.isCrash]
+  | getEndpoints => simp [body, safeBody, Out.isCrash]
+  | createSession k s c =>
+    cases s <;> cases c <;> cases hn : newSessionSignatureChecked <;> simp [body, safeBody, Out.isCrash, hn]
+  | activateSession s ok =>
+    simp only [body, safeBody]
+    cases hf : findSession st t with
+    | none => simp [Out.isCrash]
+    | some x =>
+      obtain ⟨xt, xa, xq, xr⟩ := x
+      cases s <;> cases ok <;> cases xr <;> cases hv : verifySessionSignatureChecked <;> simp [Out.isCrash, hv]
+  | closeSession => simp [body, safeBody, Out.isCrash]
+  | read => cases h : st.accessAttr <;> simp [body, safeBody, accessCheck, h, Out.isCrash]
+  | write v => cases h : st.accessAttr <;> simp [body, safeBody, accessCheck, h, Out.isCrash]
+  | writeAttr w a =>
+    cases h : st.accessAttr <;> simp [body, safeBody, accessCheck, h, Out.isCrash] <;>
+      (by_cases hw : w = "DataType" <;> simp [hw])
+  | browse c b =>
+    cases c <;> cases b <;> cases h : st.dataTypeAttr <;> cases hd : dataTypeAssertionChecked <;>
+      simp [body, safeBody, h, hd, Out.isCrash]
+  | createSubscription iv =>
+    cases iv <;> cases hf : findSession st t <;> cases hp : publishingIntervalRevised <;>
+      simp [body, safeBody, effectiveInterval, sessionKnown, hf, hp, Out.isCrash]
+  | publish =>
+    cases hf : findSession st t <;> simp [body, safeBody, hf, Out.isCrash]
+  | deleteSubscriptions ids =>
+    have h := delSubsLoop_isErr st (findSession st t) ids
+    simp only [body, safeBody, sessionKnown]
+    cases hl : delSubsLoop st (findSession st t) ids with
+    | error e => rw [hl] at h; exact h
+    | ok p => rw [hl] at h; obtain ⟨a, b⟩ := p; exact h
+  | createMonitoredItems s n =>
+    simp only [body, safeBody, sessionKnown, subOwned]
+    cases hs : findSub st s with
+    | none => simp [Out.isCrash]
+    | some sub =>
+      obtain ⟨sid, owner⟩ := sub
+      cases owner with
+      | none => simp [Out.isCrash]
+      | some o =>
+        cases hf : findSession st t with
+        | none => simp [Out.isCrash]
+        | some c => by_cases hc : o = c.token <;> simp [Out.isCrash, hc]
+  | setMonitoringMode ids =>
+    have h := itemLoop_isErr st (findSession st t) "MonitoredItemService.SetMonitoringMode"
+      setModeUnknownContinues setModeMismatchContinues ids
+    simp only [body, safeBody, itemSafe, sessionKnown]
+    cases hl : itemLoop st (findSession st t) "MonitoredItemService.SetMonitoringMode"
+        setModeUnknownContinues setModeMismatchContinues ids with
+    | error e => rw [hl] at h; exact h
+    | ok p => rw [hl] at h; exact h
+  | deleteMonitoredItems ids =>
+    have h := itemLoop_isErr st (findSession st t) "MonitoredItemService.DeleteMonitoredItems"
+      delItemsUnknownContinues delItemsMismatchContinues ids
+    simp only [body, safeBody, itemSafe, sessionKnown]
+    cases hl : itemLoop st (findSession st t) "MonitoredItemService.DeleteMonitoredItems"
+        delItemsUnknownContinues delItemsMismatchContinues ids with
+    | error e => rw [hl] at h; exact h
+    | ok p => rw [hl] at h; exact h
+  | other n => simp [body, safeBody, unsupportedFault, Out.isCrash]
 
 end Opcua.Srv
